@@ -231,6 +231,10 @@ class C05(Check):
         for S, E in shapes:
             us.append(first_reaction_unit(S, E, asserts=("walk", "map"), tag="C05"))
         us.append(jump_unit(expr.by_name("sir"), True, 2, tag="C05"))
+        if tier != "quick":
+            us.append(jump_unit(expr.by_name("sir"), True, 3, tag="C05", max_paths=20000))
+            us.append(jump_unit(expr.by_name("sir_bd_multi"), True, 2, tag="C05"))
+            us.append(parallel_unit(3))
         us.append(parallel_unit(2))
         us.append(rebind_unit())
         return us
